@@ -36,7 +36,7 @@ def make_case(seed, i, tier):
         prof.update(n_intf_choices=[5, 6, 8], steps_choices=[60, 100], workers_choices=[3, 4, 99])
     scn = SC.gen_scenario(rng, prof)
     scn["abs_load_dir"] = rng.random() < 0.15       # absolute simulation.load_dir
-    kind = rng.choice(["single", "single", "clean_chain", "crash_chain", "mixed"])
+    kind = rng.choice(["single", "single", "clean_chain", "crash_chain", "mixed", "tail"])
     scn["plan"] = C.gen_plan(rng, scn, kind)
     return {"seed": seed, "scn": scn, "props": [PROP], "load_p": 0.05 if deep else rng.choice([0.1, 0.3, 1.0])}
 
